@@ -16,7 +16,24 @@ PROFILES = [
     ('kern_core', {'max_spines': 1, 'measures': (2, 9)}),
     ('kern_core', {'p_tandem': 0.3, 'empty_measures': 0.25}),
     ('mixed_core', {}),
+    # boundary shapes: more than 100 measures (three-digit measure numbers), many spines
+    ('kern_core', {'measures': (101, 112), 'rows': (1, 1), 'max_spines': 2, 'p_split': 0.01, 'p_gcomment': 0.0, 'p_fcomment': 0.01,
+                   'p_tandem': 0.01, 'bar_numbers': 1.0, 'empty_measures': 0.2, 'p_null_run': 0.0, 'p_blank': 0.0}),
+    ('kern_core', {'min_spines': 6, 'max_spines': 11, 'measures': (2, 4), 'rows': (1, 2), 'p_split': 0.03, 'max_width': 14}),
 ]
+BOUNDARY_FROM = 8   # index of the first boundary profile in PROFILES
+
+
+def sample_pairs(M, rng, limit=70):
+    """All pairs a<=b for small M; for large M the boundaries and a random sample."""
+    pairs = [(a, b) for a in range(1, M + 1) for b in range(a, M + 1)]
+    if len(pairs) <= limit:
+        return pairs
+    must = {(1, 1), (1, M), (M, M), (M - 1, M - 1), (M - 1, M), (1, M - 1), (2, 2), (9, 10), (10, 10), (9, 9), (10, 11), (99, 100),
+            (100, 100), (100, 101), (99, 99), (1, 100), (100, M)}
+    must = {(a, b) for a, b in must if 1 <= a <= b <= M}
+    rest = [p_ for p_ in pairs if p_ not in must]
+    return sorted(must) + rng.sample(rest, limit - len(must))
 EXPLORED = [
     ('kern_only', {'p_midsig': 0.25}),                                  # mid-score signature changes
     ('kern_only', {'uniform_signatures': False, 'min_spines': 2}),      # kern spines with different signature kinds
